@@ -180,6 +180,23 @@ type txShape struct {
 	S       who      `json:"s"`                  // sender
 	R       *spelled `json:"r,omitempty"`        // the other account, where the kind has one
 	EvmUser bool     `json:"evm_user,omitempty"` // evm kinds: executor name "user.evm.vf" (a user-named evm contract) instead of "evm"
+	// Positions that live only in the payload (para-chain real recipient, EVM ContractAddr, EVM Para): what tx.To holds.
+	// The para coins executor pays GetRealToAddr() and the EVM target comes from the payload whatever tx.To says, and
+	// neither the executor framework nor the coins driver ties tx.To to the payload, so all of these are packed.
+	ToMode string   `json:"to_mode,omitempty"` // "" the executor's own contract address, "acct" an ordinary account (ToAcct), "otherExec" another executor's address, "same" the account of R again
+	ToAcct *spelled `json:"to_acct,omitempty"`
+}
+
+const (
+	toExec      = ""
+	toAcct      = "acct"
+	toOtherExec = "otherExec"
+	toSame      = "same"
+)
+
+// payloadLocated: the account in R is carried by the payload only (tx.To is free).
+func payloadLocated(kind string, para bool) bool {
+	return kind == kEvmCall || kind == kEvmPara || para && (kind == kTransfer || kind == kProxy)
 }
 
 func (sh txShape) hasR() bool { return sh.Kind != kToExec && sh.Kind != kNone }
@@ -204,6 +221,19 @@ type world struct {
 
 func (w *world) execer(name string) string { return w.cfg.ExecName(name) }
 
+// toFor is tx.To of a transaction whose account position is in the payload.
+func (w *world) toFor(sh txShape, execer string) string {
+	switch sh.ToMode {
+	case toAcct:
+		return sh.ToAcct.String()
+	case toOtherExec:
+		return address.ExecAddress(w.execer("none"))
+	case toSame:
+		return sh.R.String()
+	}
+	return address.ExecAddress(execer)
+}
+
 func (w *world) build(sh txShape) *types.Transaction {
 	cfg := w.cfg
 	tx := &types.Transaction{Fee: 1e6, Nonce: atomic.AddInt64(&nonceCtr, 1), ChainID: cfg.GetChainID()}
@@ -219,8 +249,8 @@ func (w *world) build(sh txShape) *types.Transaction {
 		tx.Execer = []byte(w.execer("coins"))
 		tx.Payload = coins(r)
 		tx.To = r
-		if w.para { // para chain: To is the executor address, the recipient is only in the payload
-			tx.To = address.ExecAddress(string(tx.Execer))
+		if w.para { // para chain: the recipient is only in the payload, To is normally the executor address
+			tx.To = w.toFor(sh, string(tx.Execer))
 		}
 	case kToExec:
 		tx.Execer = []byte(w.execer("coins"))
@@ -238,15 +268,15 @@ func (w *world) build(sh txShape) *types.Transaction {
 	case kEvmCall:
 		tx.Execer = []byte(w.execer(evmName(sh)))
 		tx.Payload = types.Encode(&types.EVMContractAction4Chain33{GasLimit: 100000, GasPrice: 1, Para: []byte("calldata-not-20-bytes-long"), ContractAddr: r})
-		tx.To = address.ExecAddress(string(tx.Execer))
+		tx.To = w.toFor(sh, string(tx.Execer))
 	case kEvmPara:
 		tx.Execer = []byte(w.execer(evmName(sh)))
 		tx.Payload = types.Encode(&types.EVMContractAction4Chain33{Amount: 1, GasLimit: 100000, GasPrice: 1, Para: sh.R.raw20(), ContractAddr: address.ExecAddress(string(tx.Execer))})
-		tx.To = address.ExecAddress(string(tx.Execer))
+		tx.To = w.toFor(sh, string(tx.Execer))
 	case kProxy:
 		inner := &types.Transaction{Execer: []byte(w.execer("coins")), Payload: coins(r), To: r, Fee: 1e6, Nonce: tx.Nonce, ChainID: cfg.GetChainID()}
 		if w.para {
-			inner.To = address.ExecAddress(string(inner.Execer))
+			inner.To = w.toFor(sh, string(inner.Execer))
 		}
 		tx.Execer = []byte(w.execer("evm"))
 		tx.Nonce = 0 // proxy-exec compares tx.Nonce with the sender's evm nonce, 0 for every account here
@@ -286,9 +316,10 @@ type built struct {
 	pool     *types.Transaction   // pool form (single, or head clone carrying the whole group)
 	touch    []bool               // per member: touches a blocked account
 	touchAny bool
-	deep     bool // touching only in a non-canonical spelling, a non-head member or an inner transaction
-	proxyRcp bool // single proxy-exec transaction touching only through the recipient of its inner transaction
-	tailOnly bool // group whose head does not touch but a later member does
+	deep     bool   // touching only in a non-canonical spelling, a non-head member or an inner transaction
+	proxyRcp bool   // single proxy-exec transaction touching only through the recipient of its inner transaction
+	tailOnly bool   // group whose head does not touch but a later member does
+	freeTo   []bool // per member: touches only through the payload while tx.To is neither the executor's address nor blocked
 }
 
 func (w *world) buildItem(spec itemSpec, blocked map[who]bool) *built {
@@ -316,15 +347,17 @@ func (w *world) buildItem(spec itemSpec, blocked map[who]bool) *built {
 	for i, sh := range spec.Txs {
 		bySender := blocked[sh.S]
 		byR := sh.hasR() && blocked[sh.R.who]
-		b.touch = append(b.touch, bySender || byR)
-		if !(bySender || byR) {
+		byTo := sh.ToMode == toAcct && payloadLocated(sh.Kind, w.para) && blocked[sh.ToAcct.who] // an account written into a free tx.To
+		b.touch = append(b.touch, bySender || byR || byTo)
+		b.freeTo = append(b.freeTo, byR && !bySender && !byTo && payloadLocated(sh.Kind, w.para) && (sh.ToMode == toAcct || sh.ToMode == toOtherExec))
+		if !(bySender || byR || byTo) {
 			continue
 		}
 		b.touchAny = true
-		if bySender && i == 0 || byR && i == 0 && !sh.R.nonCanonical() && sh.Kind != kProxy {
+		if sh.Kind != kProxy && i == 0 && (bySender || byR && !sh.R.nonCanonical() || byTo && !sh.ToAcct.nonCanonical()) || sh.Kind == kProxy && bySender && i == 0 {
 			shallow = true
 		}
-		if sh.Kind == kProxy && byR && !bySender && len(spec.Txs) == 1 {
+		if sh.Kind == kProxy && (byR || byTo) && !bySender && len(spec.Txs) == 1 {
 			b.proxyRcp = true // signature of finding C31-pool-proxy-inner-recipient
 		}
 	}
@@ -493,7 +526,30 @@ func genSpelling(t *rapid.T, w who, label string) spelled {
 	return s
 }
 
-func genShape(t *rapid.T, kinds []string, blocked []spelled, aim bool) txShape {
+func genShape(t *rapid.T, kinds []string, blocked []spelled, aim bool, para bool) txShape {
+	sh := genShapeCore(t, kinds, blocked, aim)
+	if payloadLocated(sh.Kind, para) {
+		sh.ToMode = rapid.SampledFrom([]string{toExec, toAcct, toExec, toAcct, toOtherExec, toSame}).Draw(t, "toMode")
+		if sh.ToMode == toAcct {
+			// an ordinary account that is not blocked (there are 12 accounts and at most 3 blocked ones)
+			isBlocked := map[who]bool{}
+			for _, b := range blocked {
+				isBlocked[b.who] = true
+			}
+			a := genWho(t, "toAcct")
+			for isBlocked[a] {
+				if a.Eth = !a.Eth; !a.Eth {
+					a.K = (a.K + 1) % nKeys
+				}
+			}
+			sp := genSpelling(t, a, "toAcct")
+			sh.ToAcct = &sp
+		}
+	}
+	return sh
+}
+
+func genShapeCore(t *rapid.T, kinds []string, blocked []spelled, aim bool) txShape {
 	sh := txShape{Kind: rapid.SampledFrom(kinds).Draw(t, "kind"), S: genWho(t, "s")}
 	if sh.Kind == kEvmCall || sh.Kind == kEvmPara {
 		sh.EvmUser = rapid.IntRange(0, 3).Draw(t, "evmUser") == 0
@@ -532,14 +588,14 @@ func genCase(t *rapid.T, para bool) *caseSpec {
 		var it itemSpec
 		switch rapid.IntRange(0, 9).Draw(t, "itemKind") {
 		case 0, 1: // proxy-exec is only unwrapped for a transaction outside a group
-			it.Txs = []txShape{genShape(t, []string{kProxy}, c.Blocked, true)}
+			it.Txs = []txShape{genShape(t, []string{kProxy}, c.Blocked, true, para)}
 		case 2, 3, 4:
-			it.Txs = []txShape{genShape(t, kinds, c.Blocked, true)}
+			it.Txs = []txShape{genShape(t, kinds, c.Blocked, true, para)}
 		default:
 			n := rapid.IntRange(2, 4).Draw(t, "groupN")
 			aimAt := rapid.IntRange(0, n-1).Draw(t, "aimAt")
 			for j := 0; j < n; j++ {
-				it.Txs = append(it.Txs, genShape(t, kinds, c.Blocked, j == aimAt))
+				it.Txs = append(it.Txs, genShape(t, kinds, c.Blocked, j == aimAt, para))
 			}
 		}
 		it.Route = rapid.SampledFrom([]string{rTx, rTx, rTx, rDelay, rDelay, rReorg}).Draw(t, "route")
@@ -615,6 +671,9 @@ func runCase(t lib.TB, test string, c *caseSpec) {
 			if sh := it.spec.Txs[j]; c.Para && sh.Kind == kTransfer && blocked[sh.R.who] {
 				lib.Class("exec_touch_real_recipient_in_payload")
 			}
+			if it.freeTo[j] {
+				lib.Class("exec_touch_payload_only_to_" + it.spec.Txs[j].ToMode + "_" + it.spec.Txs[j].Kind)
+			}
 			if !active {
 				continue // no constraint below the fork
 			}
@@ -628,6 +687,9 @@ func runCase(t lib.TB, test string, c *caseSpec) {
 			}
 			if wr.Ty != types.ExecErr { // witness: without the blacklist the same transaction is packed
 				lib.Class("exec_witness_packed")
+				if it.freeTo[j] {
+					lib.Class("exec_witness_packed_payload_only_free_to")
+				}
 				if wr.Ty == types.ExecOk {
 					lib.Class("exec_witness_execok")
 				}
@@ -708,6 +770,12 @@ func runCase(t lib.TB, test string, c *caseSpec) {
 			fail("pool at height %d (ForkAccountBlacklist %d, exec check %v, route %s) admitted item %d which touches a blocked account", n.height, n.ForkH, !n.DisableExecCheck, it.spec.Route, i)
 		case witness:
 			lib.Class("pool_witness_admitted")
+			for j := range it.freeTo {
+				if it.freeTo[j] {
+					lib.Class("pool_witness_admitted_payload_only_free_to")
+					break
+				}
+			}
 			if it.deep {
 				lib.Class("pool_nontrivial")
 				lib.NonTrivialCase(map[string]interface{}{"level": "pool", "para": c.Para, "fork": n.ForkH, "pool_height": n.height, "exec_check": !n.DisableExecCheck, "blocked": c.Blocked, "item": it.spec})
